@@ -2,6 +2,7 @@ package main
 
 import (
 	"fmt"
+	"sort"
 
 	"github.com/RoaringBitmap/roaring/v2"
 	segment "github.com/blevesearch/scorch_segment_api/v2"
@@ -106,6 +107,67 @@ func thesaurusQueries(c *ctx, seg segment.Segment, spec sx.V) (bad string) {
 		if s, err := sl.Iterator(nil).Next(); err != nil || s != nil {
 			return fmt.Sprintf("unknown term of thesaurus %q yields a synonym (%v, %v)", name, s, err)
 		}
+		// a caller that recycles the list and iterator of its previous lookup (prealloc arguments):
+		// defined terms, an unknown term and an unknown thesaurus in random order
+		var preL segment.SynonymsList
+		var preI segment.SynonymsIterator
+		var trail []string
+		for q := 0; q < 8; q++ {
+			tgt, term := th, "\x01no-such-term"
+			var want []zh.SynPair
+			switch k := c.R.Intn(4); {
+			case k == 0:
+				trail = append(trail, "unknown term")
+			case k == 1:
+				other, err := ts.Thesaurus("no-such-thesaurus")
+				if err != nil {
+					return "Thesaurus(unknown name) error " + err.Error()
+				}
+				tgt, term = other, "happy"
+				trail = append(trail, "unknown thesaurus")
+			default:
+				if len(t.L[1].L) == 0 {
+					continue
+				}
+				te := t.L[1].L[c.R.Intn(len(t.L[1].L))]
+				term = string(te.L[0].B)
+				for _, p := range te.L[1].L {
+					want = append(want, zh.SynPair{Syn: string(p.L[0].B), Doc: p.L[1].N})
+				}
+				trail = append(trail, fmt.Sprintf("%q", term))
+			}
+			l, err := tgt.SynonymsList([]byte(term), nil, preL)
+			if err != nil {
+				return fmt.Sprintf("thesaurus %q, lookups %v each recycling the previous list: error %v", name, trail, err)
+			}
+			preL = l
+			it := l.Iterator(preI)
+			preI = it
+			var got []zh.SynPair
+			for {
+				sy, err := it.Next()
+				if err != nil {
+					return fmt.Sprintf("thesaurus %q, lookups %v each recycling the previous list: error %v", name, trail, err)
+				}
+				if sy == nil {
+					break
+				}
+				got = append(got, zh.SynPair{Syn: sy.Term(), Doc: uint64(sy.Number())})
+			}
+			canon := func(ps []zh.SynPair) string {
+				sort.Slice(ps, func(a, b int) bool {
+					if ps[a].Syn != ps[b].Syn {
+						return ps[a].Syn < ps[b].Syn
+					}
+					return ps[a].Doc < ps[b].Doc
+				})
+				return fmt.Sprint(ps)
+			}
+			if canon(got) != canon(want) {
+				return fmt.Sprintf("thesaurus %q, lookups %v each recycling the previous lookup's list and iterator: the last one yields (synonym doc) pairs %v, want %v", name, trail, got, want)
+			}
+			c.Count("recycled_lookups")
+		}
 	}
 	got, err := zh.DumpThesaurus(ts, "no-such-thesaurus", nil)
 	if err != nil || len(got.Terms) != 0 {
@@ -115,8 +177,8 @@ func thesaurusQueries(c *ctx, seg segment.Segment, spec sx.V) (bad string) {
 }
 
 func checkC12(c *ctx) {
-	c.Rule = "batches mixing ordinary documents with synonym documents (1-3 thesauri interleaved in the batch, shared and distinct synonyms, the same term defined by several documents); observed: each thesaurus' term list, and (synonym, document) pairs under ALL exclusion bitmaps over up to 5 defining documents, unknown thesaurus / term, ordinary dictionaries; in memory and after persist+open; files decoded by the extracted parser; expected = extracted spec_of_batch; non-trivial = >= 2 synonym documents"
-	c.Assumptions = append(c.Assumptions, "input domain W6 (>= 1 synonym per definition, non-empty strings, thesaurus names are not ordinary field names)")
+	c.Rule = "batches mixing ordinary documents with synonym documents (1-3 thesauri interleaved in the batch, shared and distinct synonyms, the same term defined by several documents); observed: each thesaurus' term list, and (synonym, document) pairs under ALL exclusion bitmaps over up to 5 defining documents, unknown thesaurus / term, lookup histories in which the caller recycles the previous list and iterator (prealloc), ordinary dictionaries; in memory and after persist+open; files decoded by the extracted parser; expected = extracted spec_of_batch; non-trivial = >= 2 synonym documents"
+	c.Assumptions = append(c.Assumptions, "input domain W6 (>= 1 synonym per definition, non-empty strings); thesauri may be named like ordinary fields")
 	n := c.n(160, 4000)
 	parts := []int{pThes, pDicts, pFields}
 	for i := 0; i < n; i++ {
